@@ -120,8 +120,30 @@ Keyed(L) ==
             sc("payload-type-oem", Pkt(194, Var("sidM"), B(<<1, 2, 3, 4, 5, 6>>) , GoodAuth)),
             sc("payload-type-rakp2", Pkt(211, Var("sidM"), enc(full), GoodAuth)) }
 
+\* a message of 15 mod 16 bytes: the specification's pad is empty, an OpenSSL-style BMC sends sixteen pad bytes 01..10h and
+\* the length 10h (tolerated on purpose: value A allowed); the same with any one of the sixteen bytes wrong is invalid
+Pad16Set ==
+  LET L == 3   msg == Msg(ValA(L))
+      pad(j) == [i \in 1..16 |-> IF i = j THEN (i + 1) % 256 ELSE i] \o <<16>>
+  IN { Script("pad16-tolerated", L, Pkt(192, Var("sidM"), EncPayload(msg, [i \in 1..16 |-> i] \o <<16>>), GoodAuth), "pad16-tolerated", TRUE) }
+     \cup { Script("pad16-pos" \o ToString(j), L, Pkt(192, Var("sidM"), EncPayload(msg, pad(j)), GoodAuth), "pad16-pos" \o ToString(j), FALSE) : j \in 1..16 }
+\* the convenience methods of a session (the two that also exist outside a session): forged first, authentic second
+GuidMsg(v) == B(MsgRspBytes(129, 7, 0, 1, 0, 55, 0, [i \in 1..16 |-> (v + i) % 256]))
+MethodCall(kind) ==
+  [k |-> "call", api |-> "Method", method |-> "GetSystemGUID", on |-> "", margs |-> <<>>, label |-> kind, target |-> "sess",
+   exp |-> [prop |-> "C04", outcome |-> "oneofOrError", values |-> << [i \in 1..16 |-> (176 + i) % 256] >>]]
+MethodSet ==
+  LET a == GuidMsg(160)  b == GuidMsg(176)
+      good == EncPayload(a, ConfPadBytes(TLen(a)))
+      sc(name, t) == [id |-> "method-" \o name, prefix |-> "hs", info |-> [family |-> "forge", insess |-> TRUE, integLen |-> S.integLen, bmcSid |-> S.bmcSid, kind |-> name],
+                      steps |-> << MethodCall(name), First(t, name),
+                                   [React0 EXCEPT !.datagrams = << Dg(SessPacket(S, LE32s(2), b, Iv(2)), [kind |-> "authenticB"]) >>] @@ [cancel |-> TRUE] >>]
+  IN { sc("flag-cleared-plaintext", NullWrapper(0, a)),
+       sc("unsigned-plaintext-in-session-header", Cat(<< Rmcp, B(<<6, 0>>), Var("sidM"), B(LE32s(1)), Len16(a), a >>)),
+       sc("authcode-random", Pkt(192, Var("sidM"), good, LAMBDA s : B([i \in 1..S.integLen |-> (i * 37 + Seed) % 256]))),
+       sc("wrong-session-id", Pkt(192, B(<<9, 9, 9, 9>>), good, GoodAuth)) }
 Lengths == IF Tier = "thorough" THEN {0, 1, 5, 8, 15, 16, 23} ELSE {(Seed * 3) % 16, 8 + ((Seed * 5) % 16)}
-Scripts == UNION { Flips(L) \cup Truncs(L) \cup Forgeries(L) \cup Keyed(L) : L \in Lengths }
+Scripts == UNION { Flips(L) \cup Truncs(L) \cup Forgeries(L) \cup Keyed(L) : L \in Lengths } \cup Pad16Set \cup MethodSet
 
 Header == [header |-> TRUE, family |-> "forge", defs |-> SessionDefs(S), stable |-> <<"SIK", "K1", "K2">>,
            session |-> SessionRecipes(S), prefixes |-> [hs |-> HandshakeSteps(S)]]
